@@ -69,13 +69,6 @@ pub struct Ev {
     pub lf_after: u64,
     pub lp_after: u64,
 }
-#[cfg(not(bv_stream_hook))]
-mod evhook {
-    use super::Ev;
-    pub const HAVE: bool = false;
-    pub fn take() -> Vec<Ev> { vec![] }
-}
-#[cfg(bv_stream_hook)]
 mod evhook {
     use super::Ev;
     pub const HAVE: bool = true;
@@ -961,6 +954,7 @@ fn stage_plans(args: &Args, n: usize, tag: u64, c01: bool, c04: bool) -> Vec<Tas
         // tiny capacities on long inputs cost a call per byte: cap the product
         let sched = if total > 20000 && sched.caps.iter().all(|c| *c < 64) { OutSched { caps: vec![4096, 1, 70000], ..sched } } else { sched };
         let record = total <= 12000;
+        if std::env::var("BV_TRACE").is_ok() { eprintln!("task {} cfg {:?} total {} sched {}", i, cfg.sets, total, sched.desc()); }
         let ro = drive(&cfg, &reqs, &sched, record);
         rep.count(&format!("input_style{}", style));
         rep.count(&format!("input_len_class_{}", match total { 0 => "0", 1..=3 => "1-3", 4..=64 => "4-64", 65..=16384 => "65-16K", _ => ">16K" }));
